@@ -10,6 +10,8 @@ mod sim;
 mod stub;
 mod clientsim;
 mod logsink;
+mod e2e;
+mod realcases;
 
 mod c01;
 mod c02;
@@ -110,6 +112,7 @@ fn main() {
                 let code = match o.id.to_ascii_uppercase().as_str() {
                     "C18" => c18::aux_main(&spec),
                     "C12" => c12::aux_main(&spec),
+                    "E2E" => e2e::aux_main(&spec),
                     _ => 2,
                 };
                 std::process::exit(code);
